@@ -102,7 +102,7 @@ def r6(repo, res):
             kind, val, trace, printed = gm.run(sc)
         except Unfoldable as e:
             res.err("C10.R6", f"genotype() outside the folding language: {e}")
-            return
+            continue   # no verdict on this instance; what the others show is still reported
         n += 1
         want = spec_selection(sc, gap, prec)
         tag = f"structures {desc['cn']}, majors {desc['majors']}, minors {desc['minors']}, gap {gap}"
@@ -214,7 +214,7 @@ def r7(repo, res):
             out = fn(gene, coverage, shown, "any", max_solutions=3)
         except Unfoldable as e:
             res.err("C10.R7", f"estimate_minor outside the folding language: {e}")
-            return
+            continue   # no verdict on this instance; what the others show is still reported
         except Raised as e:
             bad.setdefault("all-candidates", f"majors {[(m.label, m.cn_solution.label) for m in majors]}: raises {e}")
             continue
